@@ -25,7 +25,7 @@ from molgri.space.rotobj import SphereGridFactory
 
 PROPERTY = "C08"
 SPECS_Q = ["ico_7", "ico_13", "cube3D_9", "cube3D_27", "randomS_6", "cube4D_5", "cube4D_9", "randomQ_6"]
-GETTERS = ["array", "volumes", "volumes_approx", "adjacency", "borders", "distances", "full_array"]
+GETTERS = ["array", "volumes", "volumes_approx", "prefactors", "adjacency", "borders", "distances", "full_array"]
 START_SEED = 424242
 _TABLE = None
 
@@ -51,6 +51,9 @@ def create(spec):
 
 
 def observe_fg(fg, getter) -> str:
+    if getter == "prefactors":
+        m = fg.get_full_prefactors().tocoo()
+        return sha(m.row.tobytes(), m.col.tobytes(), np.asarray(m.data).tobytes(), m.shape)
     if getter in ("array", "full_array"):
         a = np.asarray(fg.get_full_grid_as_array() if getter == "array" else fg.get_position_grid().get_position_grid_as_array())
         return sha(np.ascontiguousarray(a).tobytes(), a.shape)
@@ -63,7 +66,10 @@ def observe_fg(fg, getter) -> str:
 
 def observe(obj, getter) -> str:
     if not hasattr(obj, "dimensions") or type(obj).__name__ == "FullGrid":
-        return observe_fg(obj, getter)
+        try:
+            return observe_fg(obj, getter)
+        except Exception as e:          # e.g. prefactors of a grid with unbounded cells (F6): the outcome is the exception
+            return "raises:" + type(e).__name__
     d = obj.dimensions
     if getter == "array":
         a = obj.get_grid_as_array()
@@ -73,6 +79,10 @@ def observe(obj, getter) -> str:
         return sha(np.ascontiguousarray(a).tobytes(), a.shape)
     if getter == "volumes":
         a = np.asarray(obj.get_spherical_voronoi().get_voronoi_volumes())
+        return sha(np.ascontiguousarray(a).tobytes(), a.shape)
+    if getter == "prefactors":          # only FullGrid objects have prefactors; for a sphere grid: its coordinates again
+        getter = "array"
+        a = obj.get_grid_as_array()
         return sha(np.ascontiguousarray(a).tobytes(), a.shape)
     if getter == "volumes_approx":
         a = np.asarray(obj.get_spherical_voronoi().get_voronoi_volumes(approx=True))
@@ -274,7 +284,10 @@ def run(ctx):
     specs = SPECS_Q if not ctx.thorough else SPECS_Q + ["ico_43", "cube4D_17", "randomS_20", "randomQ_12"]
     FGS = ["FG|cube4D_5|ico_7|[0.1,0.2]|shell", "FG|cube4D_5|ico_7|[0.1,0.2]|cart",
            "FG|randomQ_6|cube3D_9|[0.2,0.3,0.45]|cart", "FG|randomQ_6|cube3D_9|[0.2,0.3,0.45]|shell"]
-    specs = specs + FGS
+    # a single-position full grid (the rotation matrices are handed out without a copy there) and a Cartesian grid with
+    # unbounded cells (their documented volume is 0.0 - not whatever the memory held)
+    FGS2 = ["FG|cube4D_6|1|0.3|shell", "FG|1|ico_4|[0.1,0.2]|cart"]
+    specs = specs + FGS + FGS2
     tables = build_table(specs)
     # grids whose rows come from deeper subdivision levels: coordinates only, compared across fresh processes started with
     # different PYTHONHASHSEED values (row order must not depend on set/dict iteration order)
